@@ -77,8 +77,11 @@ def ev_call(eng, e, st):
         kwargs = {}
         for k, v in zip(e.keywords, vals[1 + len(arg_exprs) :]):
             if k.arg is None:
+                lit = _splatted_literal(eng, s0, e, k.value, v)
                 if isinstance(v, KwPack):
                     kwargs.update(v.items)
+                elif lit is not None:
+                    kwargs.update(lit)
                 else:
                     kwargs["**"] = StarArgs(v, True)
             else:
@@ -88,6 +91,37 @@ def ev_call(eng, e, st):
         else:
             outs.extend(call_value(eng, s0, recv, args, kwargs, e))
     return outs
+
+
+def _splatted_literal(eng, st, call, expr, v):
+    """`f(..., **opts)` where `opts` is a local bound exactly once, to a dict display with constant string keys, and used for nothing but `**opts`:
+    the call receives exactly these keywords (the dict cannot have changed in between: nothing else ever sees it)"""
+    from .values import Obj, Ref
+    import z3 as _z3
+
+    if not (isinstance(expr, ast.Name) and isinstance(v, Ref) and isinstance(st.get(v), Obj) and st.get(v).cls == "dictlit" and eng.module is not None):
+        return None
+    owner = None
+    for f in ast.walk(eng.module.tree):
+        if isinstance(f, (ast.FunctionDef, ast.AsyncFunctionDef)) and any(n is call for n in ast.walk(f)):
+            owner = f  # the innermost one wins (ast.walk visits outer functions first)
+    if owner is None:
+        return None
+    uses = [n for n in ast.walk(owner) if isinstance(n, ast.Name) and n.id == expr.id]
+    stores = [n for n in uses if isinstance(n.ctx, (ast.Store, ast.Del))]
+    splats = {id(kw.value) for c in ast.walk(owner) if isinstance(c, ast.Call) for kw in c.keywords if kw.arg is None}
+    binds = [a for a in ast.walk(owner) if isinstance(a, ast.Assign) and len(a.targets) == 1 and a.targets[0] in stores and isinstance(a.value, ast.Dict)]
+    declared = any(isinstance(n, (ast.Global, ast.Nonlocal)) and expr.id in n.names for n in ast.walk(owner))
+    if len(stores) != 1 or len(binds) != 1 or declared or any(id(n) not in splats for n in uses if n not in stores):
+        return None
+    items = st.get(v).attrs["items"].items
+    half = len(items) // 2
+    out = {}
+    for kx, vx in zip(items[:half], items[half:]):
+        if not (isinstance(kx, Z) and kx.kind == "str" and _z3.is_string_value(_z3.simplify(kx.t))):
+            return None
+        out[_z3.simplify(kx.t).as_string()] = vx
+    return out
 
 
 def call_value(eng, st, fv, args, kwargs, node=None):
